@@ -51,7 +51,7 @@ P = {
          "The translator accepts a small statement subset and fails loudly outside it.", "4 C18"),
  "C19": ("C19_refines (every operation sequence, unbounded: file variant with a shared offset = memory variant, incl. chunk boundaries), C19_mpc_use (the chunks mpc appends are the chunks it later asks for, for every instruction list); tie: op sequences on both real variants and the model; mpc under every tmp_dir pattern (results, traffic equal to the all-memory run, chunk lengths tapped at the buffer vs Gen.chunkSizeIter, no file left).",
          "BufReader/BufWriter/tempfile/OS offset semantics are modelled; 'no file remains' is observed.", "4 C19"),
- "C20": ("C20_clmul64_holes (the holes multiplication regenerated from gf128.rs is the exact carry-less product, all 2^128 pairs), C20_clmul128_portable_eq_spec (portable 128x128 product = specification, unconditionally), C20_simd_eq_portable (given the intrinsic's spec), C20_ctr_single_call (AesRng model: one fill on a fresh generator = keystream prefix, any length, any parallelism); tie: dispatching and portable transpose/clmul, CR/TCCR hashes, AesRng single fills and call sequences vs the Lean specifications and the stateful model (Lean AES-128 passes FIPS-197).",
+ "C20": ("C20_clmul64_holes (the holes multiplication regenerated from gf128.rs is the exact carry-less product, all 2^128 pairs), C20_clmul128_portable_eq_spec (portable 128x128 product = specification, unconditionally), C20_simd_eq_portable (given the intrinsic's spec), C20_ctr_single_call (AesRng model: one fill on a fresh generator = keystream prefix, any length, any parallelism), C20_transpose_portable (the algorithm of portable.rs - 16x8 blocks, byte-lane mask, 64-bit lane shifts, modelled at bit level - returns the exact transpose for every accepted shape and any output buffer; writes_in_bounds / loads_in_bounds: no slice access out of range); tie: dispatching and portable transpose/clmul, CR/TCCR hashes, AesRng single fills and call sequences vs the Lean specifications and the stateful model (Lean AES-128 passes FIPS-197); the real portable transpose also vs the algorithm model on shapes only it accepts (16..144 rows).",
          "Both transpose implementations and the AES transcription are at correspondence level only; intrinsic semantics assumed.", "4 C20"),
 }
 
